@@ -222,11 +222,29 @@ def wl_conv(tier, seed):
     return [("conv", convs, dict(per_tlc=1, tlc_jobs=8)), ("typed", typed, dict(per_tlc=3, tlc_jobs=8))]
 
 
+def wl_golden(tier, seed):
+    import json, os
+    checks, rewrites = [], []
+    i = 0
+    for kt in gen.KTS:
+        for kind in gen.GOLDEN_KINDS:
+            d = "/verif/golden/%s-%s" % (kt, kind)
+            exp = json.load(open(d + "/expected.json"))
+            checks.append(gen.gen_golden_check(seed * 1000 + i, d, exp, nops=60 if tier == "quick" else 2000, name="golden_%s_%s" % (kt, kind)))
+            rewrites.append(gen.gen_golden_rewrite(kind, kt, d))
+            i += 1
+    # every history has its own id space already (golden tables); one history per TLC start
+    return [("golden", checks, dict(per_tlc=1, tlc_jobs=8, max_slots=400)),
+            ("rewrite", rewrites, dict(per_tlc=1, tlc_jobs=8, max_slots=400)),
+            ("l2", l2_batch(seed + 9, 4 if tier == "quick" else 30, nops=60 if tier == "quick" else 200, base=700), dict(per_tlc=2, tlc_jobs=6))]
+
+
 def mc_buf(tier):
     return [dict(module="MCStore_q.tla", cfg="MCStore_q.cfg", workers=8)]
 
 
 PLANS = {
+    "C12": dict(attr=["C12.", "C05.buckets", "C15.bytes"], mc=mc_buf, workloads=wl_golden, assumptions=COMMON_ASSUME),
     "C13": dict(attr=["C13."], mc=mc_buf, workloads=wl_wrongtype, assumptions=COMMON_ASSUME),
     "C14": dict(attr=["C14.", "C01.result", "C02.content", "C01.outcome"], mc=mc_buf, workloads=wl_bulk, assumptions=COMMON_ASSUME),
     "C10": dict(attr=["C10.", "C01.result", "C04.items", "C05.content", "C05.nodup", "C02.content", "C01.outcome"], mc=mc_buf, workloads=wl_conv, assumptions=COMMON_ASSUME),
